@@ -60,7 +60,7 @@ let () =
         let o = if r = "event" then M.c15_event_fn n
                 else if is_variant then M.c15_variant (rule_of_name (String.sub r 8 (String.length r - 8))) n
                 else M.c15_apply (rule_of_name r) n in
-        let kf = is_variant && r = "variant:camelCase" && M.c15_kf_variant n in
+        let kf = false in   (* no recorded class is left *)
         List [of_outcome of_str o; of_bool kf; of_bool (M.c15_utf8 n)]
     | _ -> failwith "c15-naming: bad case");
   Registry.register "kf" (fun s ->
@@ -69,7 +69,6 @@ let () =
     | [k; t] ->
         let t = str_ t in
         of_bool (match atom k with
-                 | "variant" -> M.c15_kf_variant t
-                 | "camel" | "validate" | "serde" -> false
+                 | "variant" | "camel" | "validate" | "serde" -> false
                  | _ -> failwith "kind")
     | _ -> failwith "c15-kf: bad case")
